@@ -1,4 +1,5 @@
 import Spydr.IR.Props.C07
+import Spydr.IR.Props.C07Elem
 open Spydr.IR
 #print axioms Spydr.IR.cloneNetlist_inv
 #print axioms Spydr.IR.cloneNetlist_frame
@@ -14,3 +15,9 @@ open Spydr.IR
 #print axioms Spydr.IR.clone_edits_invisible_fields
 #print axioms Spydr.IR.original_edits_invisible_in_clone
 #print axioms Spydr.IR.original_edits_invisible_fields
+#print axioms Spydr.IR.cloneElem_inv
+#print axioms Spydr.IR.setRef_cross
+#print axioms Spydr.IR.run_cross
+#print axioms Spydr.IR.cloneElem_source_untouched
+#print axioms Spydr.IR.cloneElem_reference_sets
+#print axioms Spydr.IR.pruneInside_inside
